@@ -199,6 +199,12 @@ def build_computations(case):
     return dcop, vs, mod, comps
 
 
+def _intcost(x):
+    if int(x) != x:
+        raise ValueError("non-integer cost %r" % (x,))
+    return int(x)
+
+
 def dom_index(dom, v):
     """index of v in dom by the library's own membership notion (==), -1 when absent, None for None"""
     if v is None:
@@ -359,6 +365,13 @@ def run_case(case):
                     r = o_fbv(assignment)
                     st["mask"] = mask_of(name, list(r[0]))
                     st["viol"] = False
+                    # inputs of the model's find_best_values (M_SelectBest.fbv): the cost of every domain value
+                    # (constraints + the variable's own cost) and, as tick() computes it, of the current value
+                    vn_ = comp.variable.name
+                    st["costs"] = [_intcost(mod.assignment_cost(dict(assignment, **{vn_: v}), comp.constraints)
+                                            + comp.variable.cost_for_val(v)) for v in comp.variable.domain]
+                    st["cur"] = _intcost(mod.assignment_cost(dict(assignment, **{vn_: comp.current_value}),
+                                                             comp.constraints))
                     return r
 
                 def exists_violated_constraint():
@@ -370,7 +383,7 @@ def run_case(case):
                 for vn in ("variant_a", "variant_b", "variant_c"):
                     def mk_var(orig):
                         def variant(delta, best_cost, best_values):
-                            rec = [bool(delta > 0), False, st["mask"]]
+                            rec = [bool(delta > 0), False, st["mask"], st["costs"], st["cur"]]
                             evs[name].append(rec)
                             try:
                                 return orig(delta, best_cost, best_values)
@@ -389,7 +402,9 @@ def run_case(case):
                     imp = comp.current_cost - best_eval
                     if int(imp) != imp:
                         raise ValueError("non-integer improvement %r" % (imp,))
-                    evs[name].append([int(imp), mask_of(name, list(bests))])
+                    # inputs of the model's _compute_best_improvement (M_SelectBest.cbi): eval of every value
+                    evals = [_intcost(comp.compute_eval_value(v)[0]) for v in comp.variable.domain]
+                    evs[name].append([int(imp), mask_of(name, list(bests)), _intcost(comp.current_cost), evals])
                     return bests, best_eval
                 comp._compute_best_improvement = _compute_best_improvement
             mk_gdba(n, c)
@@ -446,6 +461,11 @@ def run_case(case):
         per_node = {n: [d[-1] for d in orc.draws if d[0] == n] for n in varcomps}
         model = dict(nbrs=nbrs, iso=iso, init=init, orc=per_node, evs=evs, mevents=mevents, mask_bad=mask_bad)
     final = {n: [dom_index(doms[n], c.current_value), canon(c.current_value)] for n, c in sorted(varcomps.items())}
+    graph = None
+    if algo == "dba":
+        # what the DBA theorem's hypothesis (M_Dba.wf_problem) is about: the constraints each computation holds
+        # and the neighbour set it derived from them
+        graph = {n: [sorted(r.name for r in c.constraints), sorted(c.neighbors)] for n, c in sorted(varcomps.items())}
     return dict(calls=calls, events=events, raises=raises, final=final, draws=orc.draws, model=model,
                 nsched=len(drv.schedule), sched=drv.schedule, varcomps=sorted(varcomps),
-                comps=sorted(comps))
+                comps=sorted(comps), dba_graph=graph)
